@@ -225,7 +225,8 @@ fn mem_tol(t: &DataType, y: &Value, arg_scale: f64) -> bool {
         let tt = match t { DataType::Optional(o) => o.data_type().clone(), t => t.clone() };
         if let DataType::Float(iv) = &tt {
             // plus a few ulps of the largest argument: range reduction of sin / cos and cancellation in sums lose that much
-            let eps = 1e-9 * f.abs().max(1e-300) + 1e-12 + 16.0 * f64::EPSILON * arg_scale;
+            // (arguments beyond 1e6 are the `/huge` class, judged without this allowance: there the range reduction is simply wrong)
+            let eps = 1e-9 * f.abs().max(1e-300) + 1e-12 + if arg_scale <= 1e6 { 16.0 * f64::EPSILON * arg_scale } else { 0.0 };
             return iv.iter().any(|[a, b]| f >= a - eps && f <= b + eps);
         }
     }
